@@ -31,6 +31,12 @@ def kb(pw):
     return k + b"\0" * (8 - len(k))
 
 
+def genkb(pw):
+    """what a stored hash of [pw] verifies: cmbbs.GenPasswd answers the all-zero hash for the empty password and for one
+    that starts with NUL (as a C string it is empty), and nothing verifies against that hash"""
+    return kb(pw) if pw[:1] not in (b"", b"\0") else None
+
+
 def id_ok(name, idlen):
     i = cstr(name, idlen + 1)
     return 2 <= len(i) <= idlen and chr(i[0]).isascii() and chr(i[0]).isalpha() and all(chr(c).isascii() and chr(c).isalnum() for c in i)
@@ -46,7 +52,7 @@ class Ref:
         for k in range(nslots):
             if 4 * k + 3 < len(init) and init[4 * k]:
                 i, pw, em, fl = init[4 * k:4 * k + 4]
-                self.slots[k] = {"id": i, "kb": kb(pw) if pw and pw[0] != 0 else None, "email": em, "old": bool(fl[0]), "xempt": bool(fl[1])}
+                self.slots[k] = {"id": i, "kb": genkb(pw), "email": em, "old": bool(fl[0]), "xempt": bool(fl[1])}
 
     def find(self, name):
         i = low(cstr(name, self.idlen + 1))
@@ -114,12 +120,12 @@ class Ref:
             i = cstr(a[0], self.idlen + 1)
             cand = [s for s, x in enumerate(self.slots) if x is None and table[s][0] == i]
             s = cand[0] if cand else [s for s, x in enumerate(self.slots) if x is None][0]
-            self.slots[s] = {"id": i, "kb": kb(a[1]) if a[1][:1] != b"\0" else None, "email": cstr(a[2], self.emailsz), "old": False, "xempt": False}
+            self.slots[s] = {"id": i, "kb": genkb(a[1]), "email": cstr(a[2], self.emailsz), "old": False, "xempt": False}
             return touched | {s}
         if code == 2:
             self.slots[k]["old"] = False
         if code == 4:
-            self.slots[k]["kb"] = kb(a[2]) if a[2][:1] != b"\0" else None
+            self.slots[k]["kb"] = genkb(a[2])
         if code == 5:
             self.slots[k]["email"] = cstr(a[1], self.emailsz)
         return {k} if code in (4, 5) else set()
@@ -194,7 +200,7 @@ def main():
     BADID = [b"a", b"abcdefghijklm", b"abcdefghijklmnop", b"1abc", b"ab!c", b"ab c", b"", b"al\0ice", b"\xa4\xa4ab", b"ab\xa4", b"_ab", b"ab-c"]
     SPECIAL = [b"new", b"NEW", b"New", b"guest"] + reserved + [r.upper() for r in reserved]
     OLD = [b"old%02d" % k for k in range(60)]
-    PW = [b"123123", b"abcdefgh", b"abcdefghXYZ", b"abcdefgH", b"password", b"p\xe1ssword", b"pass\0word", b"pass", b"\0abc", b"\x80", b"Pass", b"x"]
+    PW = [b"123123", b"abcdefgh", b"abcdefghXYZ", b"abcdefgH", b"password", b"p\xe1ssword", b"pass\0word", b"pass", b"\0abc", b"\x80", b"Pass", b"x", b""]
     PW_ASCII = [p for p in PW if all(ch < 128 for ch in p)]
     EM = [b"a@example.com", b"x@example.org", b"", b"averyveryveryverylongmailboxname.with.many.parts@example.com", b"b@example.com"]
 
@@ -246,7 +252,7 @@ def main():
                 cur = known.get(n) or next((known[x] for x in known if low(x) == low(n)), None)
                 if cur and rng.random() < 0.6:
                     return cur
-                return rng.choice(pws + [b""])
+                return rng.choice(pws)
             if r < 0.34 or (shape != "roomy" and r < 0.5):
                 n = rng.choice(names_new + names_new + TWIN + bad + SPECIAL + existing[:3]) if rng.random() < 0.8 else some_name()
                 pw = rng.choice(pws)
@@ -303,6 +309,9 @@ def main():
                       describe=lambda cs: "first differing step is found by ./check C03 --replay")
     nops = 0
     opmix, classes = {}, {}
+    # accounts whose stored hash is the all-zero one (empty or NUL-leading password): they exist and nobody can log in
+    lock = {"registered with the empty password": 0, "registered with a NUL-leading password": 0, "password changed to empty/NUL-leading": 0,
+            "login/check/change refused on such an account although the password it was given is presented": 0}
     for h, line, o in zip(hs, lines, io):
         steps = parse_steps(o, nslots, len(h["idpool"]))
         rep = {"cases": [line], "got": o[:4000]}
@@ -332,6 +341,14 @@ def main():
                     desc = "%s: %s, the account table says it must be %s" % (where, "accepted" if ok_got else "refused (%s)" % " ".join(status), "accepted" if ok_exp else "refused")
                 c.violation(key, desc, dict(rep, expected="accepted" if ok_exp else "refused"))
                 break
+            if ok_got and code == 1 and genkb(a[1]) is None:
+                lock["registered with the empty password" if a[1] == b"" else "registered with a NUL-leading password"] += 1
+            if ok_got and code == 4 and genkb(a[2]) is None:
+                lock["password changed to empty/NUL-leading"] += 1
+            if not ok_got and code in (2, 3, 4) and id_ok(a[0], idlen) and genkb(a[1]) is None:
+                kk = ref.find(a[0])
+                if kk is not None and ref.slots[kk]["kb"] is None and ref.slots[kk]["id"] != b"guest":
+                    lock["login/check/change refused on such an account although the password it was given is presented"] += 1
             if ok_got and pay_exp is not None and payload != pay_exp:
                 c.violation("%s-answer" % name, "%s: answered %r, expected %r" % (where, payload, pay_exp), dict(rep, expected=repr(pay_exp)))
                 break
@@ -360,16 +377,17 @@ def main():
     c.cov["distribution"].update({"op:" + k: v for k, v in sorted(opmix.items())})
     c.cov["result_classes"] = {"%s:%s" % (k[0], "accepted" if k[1] else "refused"): v for k, v in sorted(classes.items())}
     c.cov["distribution"].update({"shape:" + s: sum(1 for h in hs if h["shape"] == s) for s in ("roomy", "tight", "full", "full-old")})
+    c.cov["zero_hash_accounts"] = lock
     c.cov["distribution"]["through api handlers"] = sum(1 for h in hs if h["layer"] == 1)
     c.sample({"history": [(OPN[code], [x.decode("latin-1") for x in a]) for code, a in hs[0]["ops"][:6]], "shape": hs[0]["shape"], "observed_results": [" ".join(s[0]) for s in (parse_steps(io[0], nslots, len(hs[0]["idpool"])) or [])[:6]]})
     c.sample({"history": [(OPN[code], [x.decode("latin-1") for x in a]) for code, a in hs[5]["ops"][:8]], "shape": hs[5]["shape"], "layer": hs[5]["layer"],
               "observed_results": [" ".join(s[0]) for s in (parse_steps(io[5], nslots, len(hs[5]["idpool"])) or [])[:8]]})
     c.finish(rule="PRNG(seed)-generated histories of 15-40 operations over an id pool (valid, too short/long, leading digit, symbols, NUL inside, non-ASCII, case twins, new/guest, the reserved ids of the fixture) "
-                  "and a password pool (shared 8-byte prefixes, bit-7 twins, NUL inside, NUL first, key block zero) on %d-slot tables that are roomy / tight / full / full with expired accounts; one history in five through the gin handlers; "
+                  "and a password pool (shared 8-byte prefixes, bit-7 twins, NUL inside, NUL first, zero length, key block zero) on %d-slot tables that are roomy / tight / full / full with expired accounts; one history in five through the gin handlers; "
                   "a history is distinct by (shape, layer, operation list); each operation is one evaluation of the predicates" % nslots,
              assumptions=["passwords are compared through their DES key block (first 8 bytes up to NUL, low 7 bits): crypt(3) sees nothing else (C02); that two different key blocks never verify each other's hash is C02's cryptographic assumption",
                           "fewer than USHM_SIZE (31) distinct users are logged in during one history; home/<c>/ parents exist",
-                          "the zero-length password is not used where a hash is generated (cmbbs.GenPasswd panics on it: DESIGN section 6 row 14, repaired under C02)",
+                          "'the account's current password' is read as: the password last given to Register/ChangePasswd when it is non-empty as a C string; for a zero-length or NUL-leading one cmbbs.GenPasswd stores the all-zero hash (repaired under C02: it used to panic on zero length) and, as in pttbbs, nothing verifies against it - such an account exists, keeps its id taken, and cannot log in or change its password (counted under coverage.zero_hash_accounts)",
                           "operations are sequential (concurrent registrations are C15's subject); the clock enters only through the .fresh throttle and the last-login age of the initial accounts"])
 
 
